@@ -154,13 +154,17 @@ class MarkovChainLevyCopula(LevyProcess):
                 ]
             ]
         ).T
-        V = 0.0 if self.model.jump_of_finite_variation() else 1.0
+        # each margin is centred with the cut-off of its own tilde representation
+        Vs = [
+            0.0 if model.levy_triplet.nu.jump_of_finite_variation() else 1.0
+            for model in models
+        ]
         mu_tilde = np.array(
             [
                 [
                     model.levy_triplet.nu.integrate_against_x(-np.inf, -V)
                     + model.levy_triplet.nu.integrate_against_x(V, np.inf)
-                    for model in models
+                    for model, V in zip(models, Vs)
                 ]
             ]
         ).T
